@@ -319,6 +319,29 @@ def run_env(ctx, case):
         ctx.count("rendering_envs")
     try:
         first, actions = _run_env_episodes(ctx, case, rng, instance, env, render_dir)
+        if case["seed"] % 5 == 4 and first is not None and not render_dir and case["builder"] == "agent_task":
+            # the graph object the first env was built on is extended by its owner (a global node)
+            # and handed to a second env: that env works on the graph it was given
+            from job_shop_lib.graphs import (add_global_node, add_machine_global_edges,
+                                             build_agent_task_graph)
+            from job_shop_lib.reinforcement_learning import SingleJobShopGraphEnv
+            from job_shop_lib.dispatching import DispatcherObserverConfig
+            g_shared = build_agent_task_graph(instance)
+            feats = [DispatcherObserverConfig(t) for t in case["features"]]
+            e1 = SingleJobShopGraphEnv(g_shared, feats)
+            e1.reset()
+            n_before = len(g_shared.nodes)
+            add_global_node(g_shared); add_machine_global_edges(g_shared)
+            e2 = SingleJobShopGraphEnv(g_shared, feats)
+            obs2, _ = e2.reset()
+            import copy
+            e3 = SingleJobShopGraphEnv(copy.deepcopy(g_shared), feats)
+            obs3, _ = e3.reset()
+            ctx.count("envs_built_on_a_graph_object_that_was_extended_after_an_earlier_env")
+            if _snap.obs_state(obs2) != _snap.obs_state(obs3) or len(e2.job_shop_graph.nodes) != n_before + 1:
+                ctx.violation("c12_env_reset_to_another_graph_than_it_was_given",
+                              {"nodes_given": n_before + 1, "nodes_after_reset": len(e2.job_shop_graph.nodes),
+                               "features": case["features"]})
         if shared is not None and first is not None and not render_dir:
             # the user's configuration objects served other environments meanwhile (another graph
             # encoding of the same instance); an env constructed from them now behaves like the
@@ -461,7 +484,27 @@ def run_multi_env(ctx, case):
                                                 "non_immediate_operations"]))
         ctx.count("multi_env_reconfigured_through_the_filter_setter")
     X = build()
-    X.reset(); play(X, random.Random(1))
+    obs0, _ = X.reset()
+    if len(case["features"]) >= 2:
+        # the multi env's episode is that of a single env constructed by hand for the same instance
+        # with the same configurations, in the same order (same feature columns)
+        from job_shop_lib.graphs import build_agent_task_graph
+        from job_shop_lib.reinforcement_learning import SingleJobShopGraphEnv
+        Z = SingleJobShopGraphEnv(build_agent_task_graph(X.instance),
+                                  [DispatcherObserverConfig(t) for t in case["features"]])
+        obsz, _ = Z.reset()
+        ctx.count("multi_env_first_observation_compared_with_a_hand_built_single_env")
+        for key in ("operations", "jobs", "machines"):
+            a, b = obs0.get(key), obsz.get(key)
+            if a is None or b is None:
+                continue
+            n, k = b.shape
+            if a.shape[1] != k or not (a[:n, :] == b).all():
+                ctx.violation("c12_multi_env_observation_differs_from_single_env_on_the_same_instance",
+                              {"key": key, "features": case["features"], "multi": a[:n, :].tolist()[:4],
+                               "single": b.tolist()[:4]})
+                return
+    play(X, random.Random(1))
     if new_filter is not None:
         X.ready_operations_filter = new_filter
     obs2, _ = X.reset()
